@@ -55,6 +55,15 @@ def gen_set(rnd):
                              ['Network=missing.network'], ['Mount=type=bogus,dst=/m'], ['RemapUsers=bad'], ['[Service]', 'Type=bogus'],
                              ['[Service]', 'KillMode=bogus'], ['PublishPort=1:2:3:4:5'], ['Secret='], ['Pull=bogus']])
         fs[s + '.container'] = '\n'.join(L) + '\n'
+    # a container that fails beside a healthy member whose name merely resembles it (one service name a prefix or a suffix of the other,
+    # through the file names or through ServiceName=): membership is decided per unit, by its whole name
+    if pods and rnd.random() < 0.3:
+        base = rnd.choice(['db', 'w', 'a', 'p1'])
+        bad, good = rnd.choice([(base, base + '-backup'), (base, base + '2'), (base + '-backup', base), ('x' + base, base)])
+        broken = rnd.choice([['Pod=nosuch.pod'], ['Pod=' + rnd.choice(pods), 'Bogus=1'], ['Pod=' + rnd.choice(pods), 'PublishPort=1:2:3:4:5'], ['Bogus=1']])
+        via_name = rnd.random() < 0.3
+        fs[('bad-one' if via_name else bad) + '.container'] = '\n'.join(['[Container]', 'Image=localhost/i'] + broken + (['ServiceName=' + bad] if via_name else [])) + '\n'
+        fs[('good-one' if via_name else good) + '.container'] = '\n'.join(['[Container]', 'Image=localhost/i', 'Pod=' + rnd.choice(pods)] + (['ServiceName=' + good] if via_name else [])) + '\n'
     # Pod= naming an EXISTING unit that is not a pod (another container, the container itself, a volume, a network):
     # the name table holds units of every type, so only the suffix test keeps these out
     ctrs = [n for n in fs if n.endswith('.container')]
